@@ -19,7 +19,7 @@ pub fn prop() -> Prop {
         max_len: 500,
         quick: 60_000,
         thorough: 900_000,
-        rule: "stream A (75%): subject + k generated assertions (k in 0..7; plain, decorated, obscured); (a) ALL k! insertion orders for k<=5 (24 sampled orders for k=6,7), each with repeated insertions at generated points, through add_assertion / add_assertion_envelope / add_optional_assertion_envelope / add_assertions / add_assertion_envelopes: every build must give the byte string the harness encoder predicts; (b) re-adding any present assertion, plain or in elided/compressed/encrypted form, returns identical bytes; (c) add-then-remove of a new assertion restores the bytes, removing all assertions yields the bare subject; (d) wrap().unwrap() is identical; (e) the receiver's bytes and structural digest are unchanged by each of 1-4 generated operations of the C04 list. stream B (25%): collections with 2-6 elements (Vec, HashMap, HashSet, dcbor::Map, dcbor::Set over i64/String/u64 elements) built 3 times in different insertion orders and fresh hashers, used as subject, predicate and object: all builds byte-identical (maps also equal to the harness's sorted-map encoding). non-trivial: k>=2 distinct assertions or a collection with >=2 elements; distinct by FNV-64 of the encoding; string elements include equal-length strings with a 30-byte common prefix; HashSet and dcbor::Set pinned to the ascending-encoding array; (f) the laws with the reference envelope as the subject of an outer node, and replace_assertion by an equal assertion / by an elided rendition; every re-add also through the *_salted(.., false) routes",
+        rule: "stream A (75%): subject + k generated assertions (k in 0..7; plain, decorated, obscured); (a) ALL k! insertion orders for k<=5 (24 sampled orders for k=6,7), each with repeated insertions at generated points, through add_assertion / add_assertion_envelope / add_optional_assertion_envelope / add_assertions / add_assertion_envelopes: every build must give the byte string the harness encoder predicts; (b) re-adding any present assertion, plain or in elided/compressed/encrypted form, returns identical bytes; (c) add-then-remove of a new assertion restores the bytes, removing all assertions yields the bare subject; (d) wrap().unwrap() is identical; (e) the receiver's bytes and structural digest are unchanged by each of 1-4 generated operations of the C04 list. stream B (25%): collections with 2-6 elements (Vec, HashMap, HashSet, dcbor::Map, dcbor::Set over i64/String/u64 elements) built 3 times in different insertion orders and fresh hashers, used as subject, predicate and object: all builds byte-identical (maps also equal to the harness's sorted-map encoding). non-trivial: k>=2 distinct assertions or a collection with >=2 elements; distinct by FNV-64 of the encoding; string elements include equal-length strings with a 30-byte common prefix; HashSet and dcbor::Set pinned to the ascending-encoding array; (f) the laws with the reference envelope as the subject of an outer node, and replace_assertion by an equal assertion / by an elided rendition; every re-add also through the *_salted(.., false) routes; replace_subject with a subject sharing an assertion = assembling on that subject one by one; Vec<HashSet<i64>> built three times per HashSet case (known finding K7)",
         assumptions: &["HashMap/HashSet iteration orders are sampled through fresh RandomState instances, not enumerated"],
         extra: None,
     }
@@ -289,6 +289,17 @@ fn stream_a(src: &mut Src, ctx: &mut Ctx) -> Outcome {
             let bare = nopanic!(ctx, ns.remove_assertion(outer_a.clone()), "node-subject", "C07/node-subject/remove-last");
             check!(ctx, bare.to_cbor_data() == ref_bytes, "node-subject", "C07/node-subject/remove-last", "removing the last outer assertion did not yield the subject (the reference envelope)");
         }
+        // replace_subject with a new subject that already carries one of the receiver's assertions: the same as
+        // assembling everything on the new subject one assertion at a time (the shared one is held once)
+        {
+            let ns = Envelope::new("C07-new-subject").add_assertion("C07-own", 1).add_assertion_envelope(built[0].clone()).unwrap();
+            let r = nopanic!(ctx, reference.replace_subject(ns.clone()), "replace-subject", "C07/replace-subject-sharing");
+            let all: Vec<usize> = (0..k).collect();
+            let direct = add_in_order(&ns, &built, &all, 0);
+            check!(ctx, r.to_cbor_data() == direct.to_cbor_data(), "replace-subject", "C07/replace-subject-sharing", "replace_subject with a subject that already carries assertion #0 differs from adding the assertions to that subject one by one ({})", model.show());
+            let same = nopanic!(ctx, reference.replace_subject(reference.clone()), "replace-subject", "C07/replace-subject-sharing");
+            check!(ctx, same.to_cbor_data() == ref_bytes, "replace-subject", "C07/replace-subject-sharing", "replace_subject(self) changed the envelope {}", model.show());
+        }
         // replace by an equal assertion / by a rendition with the same digest
         let i = src.below(k);
         let a = &built[i];
@@ -482,6 +493,25 @@ fn stream_b(src: &mut Src, ctx: &mut Ctx) -> Outcome {
             _ => M::text("s").add(M::assertion(M::text("p"), leaf)),
         };
         check!(ctx, outs[0] == expect.tagged(), "collection", &key, "map encoding differs from the deterministic (sorted-key) encoding: {} vs {}", hex::encode(&outs[0]), hex::encode(expect.tagged()));
+    }
+    // a HashSet NESTED in another collection goes through dcbor's own conversion, not the crate's: equal
+    // values must still give equal envelopes (listed dependency finding when they do not)
+    if kind == 2 && ints && n >= 3 {
+        let mut nested: Vec<Vec<u8>> = Vec::new();
+        for order in &orders {
+            let mut h: HashSet<i64> = HashSet::new();
+            for e in order {
+                if let Elem::I(v) = e {
+                    h.insert(*v);
+                }
+            }
+            let env = nopanic!(ctx, Envelope::new(vec![h]), "collection", "C07/collection/nested-HashSet");
+            nested.push(place(env, position).to_cbor_data());
+        }
+        ctx.class("collection:HashSet-nested-in-Vec");
+        if !(nested[0] == nested[1] && nested[0] == nested[2]) && !ctx.note_known("C07/dependency/nested-HashSet-order") {
+            check!(ctx, false, "collection", "C07/dependency/nested-HashSet-order", "equal Vec<HashSet<i64>> values built in different insertion orders give different envelopes: {} / {} / {}", hex::encode(&nested[0]), hex::encode(&nested[1]), hex::encode(&nested[2]));
+        }
     }
     // sets: pinned to the array of the elements in ascending order of their encodings
     if kind == 2 || kind == 4 {
